@@ -16,20 +16,23 @@ TECHNIQUE = "exhaustive evaluation over small rings justified by a structural wi
 EXPLANATION = (
     'STRUCTURAL: the width enters __init__ only as the exponent of a power of two, and '
     '__eq__/__lt__/__gt__/__le__/__ge__/__add__ (with the module-level helpers they call) combine the numbers only by +, -, '
-    '% and order/equality comparisons in integer arithmetic (rule width-uniform); the five fields are written only in '
+    '% and order/equality comparisons in integer arithmetic - no hash()/float()/str() image of a number (rule width-uniform); '
+    '__eq__ compares the ring value _number of both operands itself (rule eq-on-ring-value; other shapes abstain); the five fields are written only in '
     '__init__; the base class adds no comparison behaviour. FINITE-EXHAUSTIVE under that argument: every comparison is then '
     'a Boolean combination of atoms +-(a-b) [mod M] ~ 0|H|M, constant on the cells sign(a-b) x cmp(|a-b|, halfRing), all of '
     'which are inhabited from width 3 on, so evaluating ALL pairs of widths 1..5 (1..7 thorough) against RFC 1982 3.2 '
     'written as d=(b-a) mod 2^bits decides every width; likewise __add__ (value, same width, greater for n>0, '
     'ArithmeticError beyond 2^(bits-1)-1). When the argument cannot be established (e.g. true division) the same rules are '
     "emitted as '-sampled' = bounded. BOUNDED: ring constants for widths 1..64/96/128, boundary representatives of widths "
-    'up to 128 (n = 2^(bits-1)-1 and 2^(bits-1) exactly; this is what exposes float rounding from 55 bits on), refusal of '
+    'up to 128 (n = 2^(bits-1)-1 and 2^(bits-1) exactly; this is what exposes float rounding from 55 bits on; distances k*(2^61-1), '
+    'k*(2^31-1), k*2^53 that vanish under hash()/float reductions), refusal of '
     'other widths/types. Not decided: the RFC 4034 date-string helpers.'
 )
 RULE_KINDS = {
     "rfc1982/base-is-inert": "structural",
     "rfc1982/fields-immutable": "structural",
     "rfc1982/width-uniform": "structural",
+    "rfc1982/eq-on-ring-value": "structural",       # the two sides of __eq__'s comparison derive from _number by identity (not through hash/float/str)
     # decided by evaluating ALL pairs of widths 1..5; complete for every width when rfc1982/width-uniform holds (see its detail)
     "rfc1982/compare-table": "finite-exhaustive",
     "rfc1982/add-": "finite-exhaustive",
@@ -39,6 +42,7 @@ RULE_KINDS = {
     "rfc1982/refuses-other-width": "bounded",
 }
 ASSUMPTIONS = [
+    "hash() of an int is modelled as CPython on a 64-bit platform does it (reduction modulo sys.hash_info.modulus == 2**61 - 1, -1 mapped to -2)",
     "SerialNumber's base class FancyStrMixin defines no comparison/arithmetic special method (checked: rule rfc1982/base-is-inert)",
     "the comparison expressions are piecewise constant between the evaluated boundary representatives for widths above 5 "
     "(they are built from integer comparisons of a, b, a-b, b-a, halfRing, modulo)",
@@ -104,6 +108,9 @@ _CMP_METHOD = {ast.Eq: ("__eq__", "__eq__"), ast.NotEq: ("__ne__", "__ne__"), as
                ast.LtE: ("__le__", "__ge__"), ast.GtE: ("__ge__", "__le__")}
 
 
+_HASH_MODULUS = (1 << 61) - 1     # sys.hash_info.modulus of 64-bit CPython: int hashes are reduced modulo this prime
+
+
 class Interp:
     def __init__(self, cls: ast.ClassDef, mod=None):
         self.cls = cls
@@ -111,6 +118,35 @@ class Interp:
         self.methods = methods(cls)
         self.classref = _ClassRef()
         self.fuel = 0
+
+    # ---- hash(): CPython on a 64-bit platform (sys.hash_info.modulus == 2**61 - 1) ------------
+    @staticmethod
+    def _int_hash(v: int) -> int:
+        h = abs(v) % _HASH_MODULUS
+        h = -h if v < 0 else h
+        return -2 if h == -1 else h
+
+    def _hash(self, v):
+        if isinstance(v, bool) or isinstance(v, int):
+            return self._int_hash(int(v))
+        if isinstance(v, float):
+            if v != v or v in (float("inf"), float("-inf")):
+                raise _Unsupported("hash of a non-finite float")
+            return hash(v)          # numeric hashes are not randomised; equal to the int hash for integral values
+        if v is None:
+            raise _Unsupported("hash(None) is address-dependent before Python 3.12")
+        if isinstance(v, tuple):
+            return hash(tuple(self._hash(x) for x in v))   # a tuple's hash is a fixed function of its items' hashes; hash(h) == h for a reduced h
+        if isinstance(v, _Obj):
+            if "__hash__" in self.methods:
+                r = self.call(v, "__hash__", [])
+                if isinstance(r, bool) or not isinstance(r, int):
+                    raise _Raised("TypeError")
+                return self._int_hash(r)
+            if "__eq__" in self.methods:
+                raise _Raised("TypeError")   # a class defining __eq__ without __hash__ is unhashable
+            raise _Unsupported("identity hash")
+        raise _Unsupported(f"hash of {type(v).__name__}")
 
     # ---- entry points -----------------------------------------------------------------------
     def construct(self, *args, **kw) -> _Obj:
@@ -451,6 +487,8 @@ class Interp:
             raise _Raised("TypeError")
         if fname == "type" and len(args) == 1 and isinstance(args[0], _Obj):
             return self.classref
+        if fname == "hash" and len(args) == 1 and not kw and "hash" not in env:
+            return self._hash(args[0])
         if fname in ("abs", "min", "max") and args and all(isinstance(a, (int, float)) for a in args) and not kw:
             return {"abs": abs, "min": min, "max": max}[fname](*args)
         if isinstance(f, ast.Attribute):
@@ -518,7 +556,13 @@ def _pairs(bits: int, exhaustive: bool):
         return
     h = m >> 1
     avals = sorted({0, 1, 2, h - 1, h, h + 1, m - 2, m - 1, m // 3})
-    dvals = sorted({0, 1, 2, h - 2, h - 1, h, h + 1, h + 2, m - 2, m - 1})
+    dvals = {0, 1, 2, h - 2, h - 1, h, h + 1, h + 2, m - 2, m - 1}
+    # distances that vanish under the reductions a Python runtime applies to large integers elsewhere (hash moduli, the float mantissa):
+    # distinct serials at such a distance must still compare unequal
+    for red in (_HASH_MODULUS, (1 << 31) - 1, 1 << 53):
+        dvals |= {k * red for k in (1, 2, 3) if k * red < m}
+        dvals |= {m - k * red for k in (1, 2) if 0 < m - k * red < m}
+    dvals = sorted(dvals)
     for a in avals:
         for d in dvals:
             yield a, (a + d) % m
@@ -600,9 +644,113 @@ def width_uniform(ctx, mod, cls) -> Tuple[bool, str]:
                 return False, f"{f.name} compares with the literal {n.value!r}"
             if isinstance(n, ast.Constant) and isinstance(n.value, float):
                 return False, f"{f.name} uses the float literal {n.value!r}"
-            if isinstance(n, ast.Call) and isinstance(n.func, ast.Name) and n.func.id in ("float", "round", "divmod", "pow", "abs") and n.func.id != "abs":
-                return False, f"{f.name} calls {n.func.id}()"
+            if isinstance(n, ast.Call) and isinstance(n.func, ast.Name) and n.func.id in _NOT_RING_ARITHMETIC:
+                return False, (f"{f.name} calls {n.func.id}(): its result is not a function of the order type of the numbers "
+                               "(hash() reduces integers modulo 2**61 - 1, float() rounds from 2**53 on)")
     return True, ""
+
+
+# builtins whose value on an integer is not determined by +, -, % and comparisons in the integers
+_NOT_RING_ARITHMETIC = ("float", "round", "divmod", "pow", "hash", "id", "str", "repr", "bytes", "bool", "bin", "hex", "oct", "complex", "len", "sum", "format")
+
+
+def eq_derivation(cls) -> Tuple[str, str]:
+    """How __eq__ obtains the two values it compares.  -> ("number", detail) when every decisive return compares the ring value `_number` of
+    both operands itself (through locals, int(x) when __int__ returns self._number, tuples containing it); ("through", why) when a side is
+    positively the image of the value under a function that is not injective on the integers; ("unknown", why) for any other shape."""
+    ms = methods(cls)
+    f = ms.get("__eq__")
+    if f is None:
+        return "unknown", "__eq__ not defined"
+    int_is_number = False
+    if "__int__" in ms:
+        rs = [r.value for r in ast.walk(ms["__int__"]) if isinstance(r, ast.Return)]
+        int_is_number = bool(rs) and all(isinstance(v, ast.Attribute) and v.attr == "_number" and isinstance(v.value, ast.Name) and v.value.id == "self" for v in rs)
+    hash_is_through = "__hash__" in ms
+    params = {a.arg for a in f.args.args}
+
+    def local_values(name: str) -> Optional[List[ast.expr]]:
+        vals = []
+        for st in ast.walk(f):
+            if isinstance(st, ast.Assign) and any(isinstance(t, ast.Name) and t.id == name for t in st.targets):
+                vals.append(st.value)
+            elif isinstance(st, (ast.AugAssign, ast.AnnAssign, ast.For, ast.NamedExpr, ast.With)) and any(isinstance(x, ast.Name) and x.id == name and isinstance(x.ctx, ast.Store) for x in ast.walk(st)):
+                return None
+        return vals
+
+    def is_operand(e, depth=0) -> bool:
+        """e denotes one of the two serial numbers (a parameter, or a local holding the converted operand)."""
+        if isinstance(e, ast.Name):
+            if e.id in params:
+                return True
+            vals = local_values(e.id)
+            return bool(vals) and depth < 4 and all(isinstance(v, ast.Call) and isinstance(v.func, ast.Attribute) and v.func.attr == "_convertOther" for v in vals)
+        return False
+
+    def derive(e, depth=0) -> Tuple[str, str]:
+        if depth > 6:
+            return "unknown", src(e)
+        if isinstance(e, ast.Attribute) and e.attr == "_number" and is_operand(e.value):
+            return "number", src(e)
+        if isinstance(e, ast.Name) and e.id not in params:
+            vals = local_values(e.id)
+            if vals:
+                ds = [derive(v, depth + 1) for v in vals]
+                for k in ("through", "unknown", "number"):
+                    for d in ds:
+                        if d[0] == k:
+                            return d
+            return "unknown", src(e)
+        if isinstance(e, (ast.Tuple, ast.List)) and e.elts:
+            ds = [derive(x, depth + 1) for x in e.elts]
+            if any(d[0] == "through" for d in ds):
+                return [d for d in ds if d[0] == "through"][0]
+            if any(d[0] == "number" for d in ds):
+                return "number", src(e)
+            return "unknown", src(e)
+        if isinstance(e, ast.Call) and not e.keywords:
+            fn = dotted(e.func) or ""
+            if fn == "int" and len(e.args) == 1:
+                if is_operand(e.args[0]):
+                    return ("number", src(e)) if int_is_number else ("unknown", src(e))
+                return derive(e.args[0], depth + 1)
+            inner = None
+            if fn in _NOT_RING_ARITHMETIC and len(e.args) == 1:
+                inner, how = e.args[0], fn + "()"
+            elif isinstance(e.func, ast.Attribute) and e.func.attr in ("__hash__", "__str__", "__repr__", "__float__", "__bool__") and not e.args:
+                inner, how = e.func.value, "." + e.func.attr + "()"
+            if inner is not None and (is_operand(inner) or derive(inner, depth + 1)[0] in ("number", "through")):
+                return "through", f"`{src(e)}` ({how} is not injective on the ring values)"
+        return "unknown", src(e)
+
+    verdicts = []
+    for r in ast.walk(f):
+        if not isinstance(r, ast.Return) or r.value is None:
+            continue
+        v = r.value
+        if isinstance(v, ast.Name) and v.id == "NotImplemented":
+            continue
+        neg = False
+        while isinstance(v, ast.UnaryOp) and isinstance(v.op, ast.Not):
+            v, neg = v.operand, not neg
+        if not (isinstance(v, ast.Compare) and len(v.ops) == 1 and isinstance(v.ops[0], (ast.NotEq, ast.IsNot) if neg else (ast.Eq, ast.Is))):
+            verdicts.append(("unknown", f"`return {src(r.value)}` is not a single equality"))
+            continue
+        a, b = derive(v.left), derive(v.comparators[0])
+        for d in (a, b):
+            if d[0] == "through":
+                verdicts.append(d)
+        if a[0] == b[0] == "number":
+            verdicts.append(("number", src(v)))
+        elif "through" not in (a[0], b[0]):
+            verdicts.append(("unknown", f"`{src(v)}`: the compared values are not recognised as derived from _number"))
+    if not verdicts:
+        return "unknown", "__eq__ has no decisive return"
+    for k in ("through", "unknown", "number"):
+        for d in verdicts:
+            if d[0] == k:
+                return d
+    return "unknown", ""
 
 
 def _parents(n):
@@ -675,6 +823,17 @@ def check(ctx):
                    and any((dotted(t) or "").startswith("SerialNumber.") for t in (st.targets if not isinstance(st, ast.AugAssign) else [st.target]))]
         ctx.check(not patched, "rfc1982/fields-immutable", Q + " | <module-level patching>", "SerialNumber is patched at module level: " +
                   "; ".join(src(p) for p in patched))
+
+    # ---- __eq__ compares the ring value itself -----------------------------------------------------------------
+    with ctx.section("equality derivation"):
+        kind, why = eq_derivation(cls)
+        if kind == "unknown":
+            ctx.note(f"rfc1982/eq-on-ring-value: shape of __eq__ not recognised ({why}); equality is decided by the comparison table only")
+        else:
+            ctx.check(kind == "number", "rfc1982/eq-on-ring-value", f"{Q}.__eq__ | <compared values>",
+                      f"__eq__ compares {why} instead of the ring values: distinct serial numbers whose images coincide compare equal (for hash(): numbers "
+                      "differing by a multiple of 2**61 - 1, i.e. every ring of 62 bits or more) while < or > also holds for them",
+                      detail=why)
 
     # ---- ring constants for widths 1..64 -------------------------------------------------------------------------
     with ctx.section("ring constants"):
@@ -819,6 +978,11 @@ def check(ctx):
 # --------------------------------------------------------------------------------------------------
 
 MUTANTS = [
+    Mutant("eq-through-hash-of-the-numbers", RFC, "        return other._number == self._number\n", "        return hash(other._number) == hash(self._number)\n", expect_rule="rfc1982/eq-on-ring-value"),
+    Mutant("eq-through-float-locals", RFC, "        return other._number == self._number\n", "        mine = float(self._number)\n        theirs = float(other._number)\n        return mine == theirs\n",
+           expect_rule="rfc1982/eq-on-ring-value"),
+    Mutant("eq-through-dunder-hash-delegation", RFC, "        return other._number == self._number\n", "        return (other.__hash__(), other._serialBits) == (self.__hash__(), self._serialBits)\n",
+           expect_rule="rfc1982/compare-table-sampled"),
     Mutant("lt-half-ring-inclusive", RFC,
            "            and (other._number - self._number) < self._halfRing\n",
            "            and (other._number - self._number) <= self._halfRing\n", expect_rule="rfc1982/compare-table"),
@@ -850,6 +1014,9 @@ MUTANTS = [
 ]
 
 SILENT = [
+    Silent("eq-through-int-and-locals", RFC, "        return other._number == self._number\n", "        mine = int(self)\n        theirs = int(other)\n        return not mine != theirs\n"),
+    Silent("eq-on-number-and-width-tuples", RFC, "        return other._number == self._number\n", "        return (other._number, other._serialBits) == (self._number, self._serialBits)\n"),
+    Silent("hash-of-number-and-width", RFC, "        return hash(self._number)\n", "        return hash((self._number, self._serialBits))\n"),
     Silent("lt-as-modular-distance", RFC,
            "        return (\n            self._number < other._number\n            and (other._number - self._number) < self._halfRing\n        ) or (\n"
            "            self._number > other._number\n            and (self._number - other._number) > self._halfRing\n        )\n",
